@@ -75,7 +75,37 @@ def eval_num(e, env):
     if isinstance(e, ast.BinOp) and isinstance(e.op, (ast.Sub, ast.Add)):
         a, b = eval_num(e.left, env), eval_num(e.right, env)
         return a - b if isinstance(e.op, ast.Sub) else a + b
+    if isinstance(e, ast.BinOp) and isinstance(e.op, (ast.Mult, ast.Div, ast.Mod, ast.FloorDiv)):
+        a, b = eval_num(e.left, env), eval_num(e.right, env)
+        try:
+            return {ast.Mult: lambda: a * b, ast.Div: lambda: a / b, ast.Mod: lambda: a % b, ast.FloorDiv: lambda: a // b}[type(e.op)]()
+        except ZeroDivisionError:
+            raise Undecidable(stmt_text(e))
+    if isinstance(e, ast.Call) and len(e.args) in (1, 2) and not e.keywords:
+        import math
+        nm = e.func.id if isinstance(e.func, ast.Name) else (e.func.attr if isinstance(e.func, ast.Attribute) else None)
+        fn = {'sin': math.sin, 'cos': math.cos, 'tan': math.tan, 'radians': math.radians, 'degrees': math.degrees, 'abs': abs, 'fabs': abs,
+              'float': float, 'fmod': math.fmod, 'copysign': math.copysign, 'atan': math.atan, 'atan2': math.atan2, 'sign': lambda x: (x > 0) - (x < 0),
+              'angular_typecheck': lambda x: x}.get(nm)
+        if fn is not None:
+            try:
+                return fn(*[eval_num(a, env) for a in e.args])
+            except (ValueError, ZeroDivisionError):
+                raise Undecidable(stmt_text(e))
     raise Undecidable(stmt_text(e))
+
+
+def straight_line_values(func, upto, env):
+    """numeric values of the names assigned by the top-level straight-line statements func.body[:upto], started from env (parameter
+    representatives); names whose defining expression is outside the arithmetic subset are left out"""
+    vals = dict(env)
+    for st in func.node.body[:upto]:
+        if isinstance(st, ast.Assign) and len(st.targets) == 1 and isinstance(st.targets[0], ast.Name):
+            try:
+                vals[st.targets[0].id] = eval_num(st.value, vals)
+            except Undecidable:
+                vals.pop(st.targets[0].id, None)
+    return vals
 
 
 def negation_parity(stmts, var, env):
